@@ -22,6 +22,9 @@ import (
 	"github.com/nspcc-dev/neo-go/pkg/config"
 	"github.com/nspcc-dev/neo-go/pkg/core"
 	coreb "github.com/nspcc-dev/neo-go/pkg/core/block"
+	"github.com/nspcc-dev/neo-go/pkg/core/transaction"
+	"github.com/nspcc-dev/neo-go/pkg/crypto/keys"
+	"github.com/nspcc-dev/neo-go/pkg/smartcontract"
 	"github.com/nspcc-dev/neo-go/pkg/io"
 	"github.com/nspcc-dev/neo-go/pkg/network/extpool"
 	npayload "github.com/nspcc-dev/neo-go/pkg/network/payload"
@@ -331,6 +334,8 @@ type c19Net struct {
 	bypassDedup bool
 	poolFirst   bool
 	autoZero    bool
+	lim         C19Lim
+	cfg         config.Blockchain
 	// proposal probe only: the harness itself hands an invalid PrepareRequest to a backup
 	tolerateInvalidRequest bool
 	deliveries             int
@@ -366,15 +371,72 @@ func (net *c19Net) fail(f string, a ...any) error {
 	return fmt.Errorf("%s%s", msg, net.history(70))
 }
 
-func c19NewNet(w *c19World, pools [][]int, skewMs []int, bypassDedup, poolFirst bool) (*c19Net, error) {
-	net := &c19Net{w: w, f: (w.n - 1) / 3, labels: map[string]bool{}, canon: map[uint32]c19Canon{}, bypassDedup: bypassDedup, poolFirst: poolFirst}
+// C19Lim draws small block limits (0 = the default, i.e. never reached): the primary cuts its proposal with
+// ApplyPolicyToTxSet to exactly these limits and the backups re-check them in verifyRequest / verifyBlock.
+// The size and fee limits are given as the number of plain transactions (all of one size and one system fee)
+// that exactly fit by the primary's own estimate.
+type C19Lim struct {
+	MaxTx   int `json:"max_tx,omitempty"`
+	SizeTxs int `json:"size_txs,omitempty"`
+	FeeTxs  int `json:"fee_txs,omitempty"`
+}
+
+// Cap is the number of plain transactions one block can carry (0 = unlimited for this harness).
+func (l C19Lim) Cap() int {
+	c := 0
+	for _, v := range []int{l.MaxTx, l.SizeTxs, l.FeeTxs} {
+		if v > 0 && (c == 0 || v < c) {
+			c = v
+		}
+	}
+	return c
+}
+
+// apply turns the limits into protocol settings (identical on every node).
+func (l C19Lim) apply(w *c19World, cfg *config.Blockchain) error {
+	plain := w.txMeta[w.txHash[0]]
+	for k := 0; k < c19NTx; k++ {
+		if m := w.txMeta[w.txHash[k]]; c19IsPlain(k) && (m.size != plain.size || m.sysFee != plain.sysFee) {
+			return fmt.Errorf("plain transactions differ in size or system fee (tx %d)", k)
+		}
+	}
+	if l.MaxTx > 0 {
+		cfg.MaxTransactionsPerBlock = uint16(l.MaxTx)
+	}
+	if l.FeeTxs > 0 {
+		cfg.MaxBlockSystemFee = int64(l.FeeTxs) * plain.sysFee
+	}
+	if l.SizeTxs > 0 {
+		// the estimate ApplyPolicyToTxSet uses: header with the default multisignature witness of the validators
+		pubs := make(keys.PublicKeys, w.n)
+		for i := range pubs {
+			pubs[i] = ck.CommitteeKeys[i].Pub
+		}
+		ver, err := smartcontract.CreateDefaultMultiSigRedeemScript(pubs)
+		if err != nil {
+			return err
+		}
+		b := &coreb.Block{Header: coreb.Header{StateRootEnabled: w.chain.SRIH, Script: transaction.Witness{
+			InvocationScript: make([]byte, 66*smartcontract.GetDefaultHonestNodeCount(w.n)), VerificationScript: ver}}}
+		cfg.MaxBlockSize = uint32(b.GetExpectedBlockSizeWithoutTransactions(l.SizeTxs) + l.SizeTxs*plain.size)
+	}
+	return nil
+}
+
+func c19NewNet(w *c19World, pools [][]int, skewMs []int, bypassDedup, poolFirst bool, lim C19Lim) (*c19Net, error) {
+	net := &c19Net{w: w, f: (w.n - 1) / 3, labels: map[string]bool{}, canon: map[uint32]c19Canon{}, bypassDedup: bypassDedup, poolFirst: poolFirst, lim: lim}
+	cfg := w.chain.Blockchain(ck.NodeCfg{Backend: "mem"})
+	if err := lim.apply(w, &cfg); err != nil {
+		return net, err
+	}
+	net.cfg = cfg
 	for j := 0; j < w.n; j++ {
 		n := &c19Node{idx: j, net: net, fatalCh: make(chan struct{}), probe: make(chan *coreb.Block, 8)}
 		if j < len(skewMs) {
 			n.skew = time.Duration(skewMs[j]) * time.Millisecond
 		}
 		net.nodes = append(net.nodes, n)
-		bc, err := core.NewBlockchain(w.newStore(), w.chain.Blockchain(ck.NodeCfg{Backend: "mem"}), zap.NewNop())
+		bc, err := core.NewBlockchain(w.newStore(), cfg, zap.NewNop())
 		if err != nil {
 			return net, fmt.Errorf("node %d: %w", j, err)
 		}
@@ -553,6 +615,9 @@ func (net *c19Net) drain(n *c19Node) error {
 			if err != nil {
 				return net.fail("node %d: emitted payload does not decode: %v", n.idx, err)
 			}
+			if info.typ == prepareRequestType {
+				net.classifyProposal(n, o.raw)
+			}
 			if info.view > 0 {
 				net.label("view-change-happened")
 				if int(info.view) > net.maxView {
@@ -606,6 +671,49 @@ func (net *c19Net) drain(n *c19Node) error {
 		}
 	}
 	return nil
+}
+
+// classifyProposal labels a proposal that fills a block limit exactly (by the primary's own reckoning).
+func (net *c19Net) classifyProposal(n *c19Node, raw []byte) {
+	e, _, err := net.decodeExt(raw)
+	if err != nil {
+		return
+	}
+	p := n.srv.payloadFromExtensible(e)
+	if p.decodeData() != nil {
+		return
+	}
+	req, ok := p.payload.(*prepareRequest)
+	if !ok {
+		return
+	}
+	cnt := len(req.transactionHashes)
+	if cnt > 0 {
+		net.label("proposal-with-tx")
+	}
+	var size int
+	var fee int64
+	for _, h := range req.transactionHashes {
+		m := net.w.txMeta[h]
+		size += m.size
+		fee += m.sysFee
+	}
+	full := false
+	if cnt == int(net.cfg.MaxTransactionsPerBlock) && net.lim.MaxTx > 0 {
+		net.label("full: tx count")
+		full = true
+	}
+	if fee == net.cfg.MaxBlockSystemFee && net.lim.FeeTxs > 0 {
+		net.label("full: system fee")
+		full = true
+	}
+	if net.lim.SizeTxs > 0 && cnt == net.lim.SizeTxs && size == cnt*net.w.txMeta[net.w.txHash[0]].size {
+		net.label("full: block size")
+		full = true
+	}
+	if full {
+		net.label("proposal-exactly-full")
+	}
 }
 
 // agreement: every height a node gained is compared with what any node held there before (hash and state root).
